@@ -1,6 +1,7 @@
 import Driver.Suite
 import SunriseVerif.Model.CL
 import SunriseVerif.Model.CLAccrualAbs
+import SunriseVerif.Model.CLCustodyAbs
 /-! Line-protocol suite `cl` for the concentrated-liquidity model. -/
 namespace Sunrise.Driver.CLSuite
 open Sunrise Sunrise.Driver Sunrise.CL
@@ -10,6 +11,8 @@ structure DSt where
   prev : St := {}
   accs : List String := []
   absFail : List String := []   -- lock-step disagreements between the store-level model and the accrual abstraction
+  slackC : List (Nat × Rat) := []   -- per pool: accumulated rounding error of the custody abstraction (CLCustody.St.slack)
+  maxErr : Rat := 0                 -- largest single rounding error seen
   k : Nat := 0     -- upper bound on the banker's-rounded reward products formed so far (CLAccrual.St.k)
 
 def dec (x : String) : Option Dec := Dec.ofString? x
@@ -43,7 +46,10 @@ def dumpPool (d : DSt) (id : Nat) : List String :=
         | none => ["accum absent"])
     ++ ((d.s.accPos.filter (·.pool == id)).map fun a => s!"accpos {a.posId} shares={a.shares} per={DecCoins.render a.perShare} unclaimed={DecCoins.render a.unclaimed}")
     ++ [balLine (poolAddr id), balLine (feesAddr id)] ++ d.accs.map balLine
-    ++ [if d.absFail.isEmpty then CLAccrual.invLine d.s id ds d.k else "inv FAIL lockstep " ++ " | ".intercalate d.absFail]
+    ++ [if !d.absFail.isEmpty then "inv FAIL lockstep " ++ " | ".intercalate d.absFail
+        else match CLCustody.absC d.s id ((d.slackC.lookup id).getD 0) with
+          | some a => if CLCustody.invOnC a then CLAccrual.invLine d.s id ds d.k else "inv FAIL custody"
+          | none => CLAccrual.invLine d.s id ds d.k]
 
 /-- apply a handler result with transaction atomicity -/
 def fin {α} (d : DSt) (r : Res (St × α)) (f : α → String) : DSt × List String :=
@@ -96,6 +102,7 @@ def step (d : DSt) : List String → DSt × List String
     match prepareClaimableFees d.s (nat pos) with
     | .ok (_, cs) => (d, ["ok fees=" ++ showCoins cs]) | .err _ => (d, ["err"]) | .panic _ => (d, ["panic"])
   | ["dump", pool] => (d, dumpPool d (nat pool))
+  | ["custodyStats"] => (d, [s!"maxErr={d.maxErr} slack={d.slackC.map fun x => (x.1, x.2)}"])
 
   | _ => (d, ["bad-op"])
 
@@ -140,6 +147,45 @@ def absOps (before after : St) (ts : List String) (pool : Nat) (denom : String) 
     if nat p != pool then [] else after.lastTrace.flatMap (CLAccrual.evOps (din == denom))
   | _ => []
 
+/-- the custody events (`CLCustody.Ev`, with the amounts that actually moved) of the successful concrete operation `ts` -/
+def custodyEvs (before after : St) (ts : List String) (pool : Nat) : List CLCustody.Ev :=
+  match getPool before pool, getPool after pool with
+  | some p0, some p1 =>
+    let balB (s : St) : Rat := (s.bank.bal (poolAddr pool) p0.base : Int)
+    let balQ (s : St) : Rat := (s.bank.bal (poolAddr pool) p0.quote : Int)
+    let idx (s : St) (id : Nat) : Option Nat := (((s.positions.filter (·.pool == pool)).reverse).map (·.id)).idxOf? id
+    let poolOf (id : Nat) : Option Nat := (getPosition before id).map (·.pool)
+    let setP : List CLCustody.Ev := [.setPrice (CLCustody.ratOfDec p1.sqrtP) p1.tick]
+    match ts with
+    | ["createPosition", _, p, lo, hi, _, _, _, _, _, _] =>
+      if nat p != pool then [] else
+      match getPosition after before.nextPos with
+      | some q => (if !poolLive p0 then setP else [])
+                    ++ [.deposit (int lo) (int hi) q.liq.raw (balB after - balB before) (balQ after - balQ before)]
+      | none => []
+    | ["decrease", _, pos, liq] =>
+      if poolOf (nat pos) != some pool then [] else
+      match idx before (nat pos), dec liq with
+      | some i, some l => [.withdraw i l.raw (balB before - balB after) (balQ before - balQ after)]
+      | _, _ => []
+    | ["increase", a, pos, _, _, _, _] =>
+      if poolOf (nat pos) != some pool then [] else
+      match idx before (nat pos), getPosition before (nat pos), getPosition after before.nextPos with
+      | some i, some q, some q' =>
+        match decreaseLiquidity before a (nat pos) q.liq with
+        | .ok (s1, _, _) =>
+          [.withdraw i q.liq.raw (balB before - balB s1) (balQ before - balQ s1)]
+            ++ (if !poolHasPosition s1 pool then setP else [])
+            ++ [.deposit q.lower q.upper q'.liq.raw (balB after - balB s1) (balQ after - balQ s1)]
+        | _ => []
+      | _, _, _ => []
+    | ["swapIn", _, p, din, _, _, _] =>
+      if nat p != pool then [] else CLCustody.swapEvs (din == p0.base) p0.tick after.lastTrace
+    | ["swapOut", _, p, _, _, din, _] =>
+      if nat p != pool then [] else CLCustody.swapEvs (din == p0.base) p0.tick after.lastTrace
+    | _ => []
+  | _, _ => []
+
 /-- lock-step check of one successful state-changing operation over every pool and denom -/
 def lockstepAll (before after : St) (ts : List String) (denoms : List String) : List String :=
   after.pools.foldl (fun acc p =>
@@ -155,8 +201,19 @@ def step' (d : DSt) (ts : List String) : DSt × List String :=
     -- every operation rounds at most two products per position it touches (claim + re-checkpoint)
     let (d', out) := step d ts
     let mutating := ["createPosition", "decrease", "increase", "claim", "incentive", "swapIn", "swapOut"].contains (ts.head?.getD "")
-    let fails := if mutating && (out.head?.getD "").startsWith "ok" then lockstepAll d.s d'.s ts (denoms d') else []
-    ({ d' with prev := d.s, absFail := (if ts.head? == some "reset" then [] else d.absFail) ++ fails, k := if ts.head? == some "reset" then 0 else d.k + 2 * ts.foldl (fun n t => n + (t.splitOn ",").length) 1 }, out)
+    let okOp := mutating && (out.head?.getD "").startsWith "ok"
+    let fails := if okOp then lockstepAll d.s d'.s ts (denoms d') else []
+    -- custody abstraction: per pool, the abstract operations with the actual amounts must be admissible and commute
+    let cres := if okOp then d'.s.pools.map (fun p => (p.id, CLCustody.lockstepC d.s d'.s p.id (custodyEvs d.s d'.s ts p.id))) else []
+    let cfails := cres.filterMap fun (id, ok, m, _) =>
+      if !ok then some s!"custody {ts.head?.getD ""} pool={id}"
+      else if decide (m > CLCustody.errTol) then some s!"custody-rounding {ts.head?.getD ""} pool={id} e~{(m * 1000000000).floor}e-9 op={" ".intercalate ts} pool0={match getPool d.s id with | some p => s!"tick={p.tick} sqrtP={p.sqrtP} liq={p.liq}" | none => ""} pos={(d.s.positions.filter (·.pool == id)).map fun q => (q.id, q.lower, q.upper, q.liq.raw)} sp={(CLCustody.ticksOfPool d.s id).eraseDups.map fun t => (t, match TickMath.tickToSqrtPrice t (match getPool d.s id with | some p => p.tp | none => default) with | .ok v => v.raw | _ => 0)}" else none
+    let slack' := cres.foldl (fun acc (id, _, _, sm) =>
+      if acc.any (·.1 == id) then acc.map (fun x => if x.1 == id then (id, x.2 + sm) else x) else acc ++ [(id, sm)])
+      (if ts.head? == some "reset" then [] else d.slackC)
+    let maxErr' := cres.foldl (fun m (_, _, e, _) => CLCustody.rmax m e) (if ts.head? == some "reset" then 0 else d.maxErr)
+    let fails := fails ++ cfails
+    ({ d' with prev := d.s, slackC := slack', maxErr := maxErr', absFail := (if ts.head? == some "reset" then [] else d.absFail) ++ fails, k := if ts.head? == some "reset" then 0 else d.k + 2 * ts.foldl (fun n t => n + (t.splitOn ",").length) 1 }, out)
 
 def run := runSuite ({} : DSt) step'
 end Sunrise.Driver.CLSuite
